@@ -21,6 +21,7 @@
 import JS.Proofs.CheckSchema
 import JS.Props.C02
 import JS.Proofs.Bridge
+import JS.Proofs.TerminateMeta
 namespace JS.Props.C11
 open JS
 
@@ -354,5 +355,175 @@ theorem accepted_never_crashes (d : Draft) (s : Json) (hws : Spec.WF s = true)
     Props.C03.Benign d fc.isSome (eval env impl (d.cfg fc) n i s b st).stop
     ∨ (Props.C03.evalG env impl d fc n i s b st).stop = .raised Props.C03.unshapedTarget :=
   Props.C03.no_crash env hre hso impl d fc n i s (accepted_is_shaped d s hws hrefs fuel st₀ hst hdone hacc) b st
+
+/-! ### The metaschema run terminates: the hypothesis `hdone` discharged
+
+The bundled metaschemas are recursive through `{"$ref": "#"}` and `#/definitions/…`, but every cycle
+of references passes through a keyword that descends into a strict part of the candidate
+(`properties`, `additionalProperties`, `items`, `dependencies`, …). JS.Proofs.Terminate makes this
+a certificate: a rank on the (base URI, schema) pairs of `metaDomain d` that strictly decreases along
+every edge on which the evaluator keeps THE SAME instance — `allOf`/`anyOf`/`oneOf`, `not`,
+`if`/`then`/`else`, schema-valued `dependencies`, draft 3 `extends` and schemas inside `type`, and
+`$ref` to its designated schema — checked by the kernel on the regenerated metaschemas and URI tables
+(`Terminate.metaRankOk_d3 … _d7`; the largest rank is 4). By induction on (size of the candidate,
+rank) the run never stops for lack of fuel once the fuel is `(s.size + 1) * 5`, WHATEVER the
+candidate (`metaschema_run_terminates`). For well-formed candidates (distinct keys) it then ends
+with `.done` (`metaschema_run_done`): the evaluator read like the specification — out of fuel
+means "accept" — ends normally on every member of the reference domain (the induction of C02's
+`ref_verdict_agrees_local` with its termination clause), and agrees with the evaluator wherever
+the latter has fuel left. So `hdone` follows from `bound s ≤ fuel`. -/
+
+/-- the fuel that suffices for the metaschema run on candidate `s` -/
+def bound (s : Json) : Nat := (s.size + 1) * 5
+
+section
+variable {d : Draft} {st : RState}
+
+private theorem know_of_metaState (h : metaState d = some st) :
+    Knowledge.Know (metaEnv d) (freshStore d) st := by
+  have hk := Terminate.know_fresh (metaEnv d) st (metaMemo_eq h)
+  rw [← metaStore_eq h] at hk
+  exact hk
+
+private theorem top_of_metaState (h : metaState d = some st) : st.top = freshTop d :=
+  (metaTop_eq h).symm
+
+end
+
+/-- **the metaschema run never runs out of fuel**: for EVERY candidate `s` (any JSON value) -/
+theorem metaschema_run_terminates (d : Draft) (s : Json) (st : RState) (hst : metaState d = some st)
+    (fuel : Nat) (hfuel : bound s ≤ fuel) :
+    (eval (metaEnv d) ⟨fun _ _ => none⟩ (d.cfg none) fuel s d.metaSchema none st).stop ≠ .fuel :=
+  Terminate.meta_run_not_fuel d _ none s fuel hfuel none st (know_of_metaState hst) (top_of_metaState hst)
+
+/-- … and so does the run that `check_schema` really makes (closed at the first error) -/
+theorem metaschema_first_error_terminates (d : Draft) (s : Json) (st : RState)
+    (hst : metaState d = some st) (fuel : Nat) (hfuel : bound s ≤ fuel) :
+    (eval (metaEnv d) ⟨fun _ _ => none⟩ (d.cfg none) fuel s d.metaSchema (some 1) st).stop ≠ .fuel :=
+  Terminate.meta_run_not_fuel d _ none s fuel hfuel (some 1) st (know_of_metaState hst) (top_of_metaState hst)
+
+/-- **the metaschema run ends normally** on every well-formed candidate: the hypothesis `hdone` of
+    the theorems above holds whenever `bound s ≤ fuel` -/
+theorem metaschema_run_done (d : Draft) (s : Json) (hws : Spec.WF s = true) (st : RState)
+    (hst : metaState d = some st) (fuel : Nat) (hfuel : bound s ≤ fuel) :
+    (eval (metaEnv d) ⟨fun _ _ => none⟩ (d.cfg none) fuel s d.metaSchema none st).stop = .done := by
+  rcases Terminate.meta_run_done d _ s hws fuel hfuel none nofun st (know_of_metaState hst)
+    (top_of_metaState hst) with h | ⟨_, h⟩
+  · exact h
+  · exact absurd rfl h
+
+/-- with ANY fuel the metaschema run on a well-formed candidate ends normally or is out of fuel:
+    never an exception (not even the documented ones), never an oracle miss — `checkSchema_never_crashes`
+    without its provisos, for this installation's URI answers -/
+theorem metaschema_run_done_or_fuel (d : Draft) (s : Json) (hws : Spec.WF s = true) (st : RState)
+    (hst : metaState d = some st) (fuel : Nat) :
+    (eval (metaEnv d) ⟨fun _ _ => none⟩ (d.cfg none) fuel s d.metaSchema none st).stop = .done
+      ∨ (eval (metaEnv d) ⟨fun _ _ => none⟩ (d.cfg none) fuel s d.metaSchema none st).stop = .fuel :=
+  Terminate.meta_run_done_or_fuel d _ s hws fuel st (know_of_metaState hst) (top_of_metaState hst)
+
+/-- **check_schema is total**: on a well-formed candidate, with `bound s` fuel, it returns normally
+    or raises `SchemaError` — no other exception, no oracle miss, not out of fuel -/
+theorem checkSchema_total (d : Draft) (s : Json) (hws : Spec.WF s = true) (fuel : Nat) (st : RState)
+    (hst : metaState d = some st) (hfuel : bound s ≤ fuel) :
+    checkSchema (metaEnv d) ⟨fun _ _ => none⟩ Globals.initial d.classDef fuel s = .ok
+      ∨ ∃ e, checkSchema (metaEnv d) ⟨fun _ _ => none⟩ Globals.initial d.classDef fuel s = .schemaError e := by
+  rw [checkSchema_draft _ _ _ d fuel s st (fresh_of_metaState hst),
+    Out.verdict_done _ (metaschema_run_done d s hws st hst fuel hfuel)]
+  cases (eval (metaEnv d) ⟨fun _ _ => none⟩ (d.cfg none) fuel s d.metaSchema none st).errs with
+  | nil => exact .inl rfl
+  | cons e _ => exact .inr ⟨e, rfl⟩
+
+/-- **check_schema accepts exactly what the metaschema allows**, without `hdone` -/
+theorem checkSchema_accepts_iff_spec_total (d : Draft) (s : Json) (hws : Spec.WF s = true) (fuel : Nat)
+    (st : RState) (hst : metaState d = some st) (hfuel : bound s ≤ fuel) :
+    checkSchema (metaEnv d) ⟨fun _ _ => none⟩ Globals.initial d.classDef fuel s = .ok
+      ↔ Spec.validRN (metaEnv d) d (metaStore d) fuel (metaTop d) d.metaSchema s = true :=
+  checkSchema_accepts_iff_spec d s hws fuel st hst (metaschema_run_done d s hws st hst fuel hfuel)
+
+/-- … and rejects, with `SchemaError`, exactly what it forbids, without `hdone` -/
+theorem checkSchema_rejects_iff_spec_total (d : Draft) (s : Json) (hws : Spec.WF s = true) (fuel : Nat)
+    (st : RState) (hst : metaState d = some st) (hfuel : bound s ≤ fuel) :
+    (∃ e, checkSchema (metaEnv d) ⟨fun _ _ => none⟩ Globals.initial d.classDef fuel s = .schemaError e)
+      ↔ Spec.validRN (metaEnv d) d (metaStore d) fuel (metaTop d) d.metaSchema s = false :=
+  checkSchema_rejects_iff_spec d s hws fuel st hst (metaschema_run_done d s hws st hst fuel hfuel)
+
+/-- the specification's answer on the metaschema HAS a limit for every well-formed candidate (it
+    is constant from `bound s` steps on), and check_schema accepts exactly when the limit is `true` -/
+theorem checkSchema_accepts_iff_allowed (d : Draft) (s : Json) (hws : Spec.WF s = true) (fuel : Nat)
+    (st : RState) (hst : metaState d = some st) (hfuel : bound s ≤ fuel) :
+    checkSchema (metaEnv d) ⟨fun _ _ => none⟩ Globals.initial d.classDef fuel s = .ok ↔ MetaAllows d s := by
+  have hdone := metaschema_run_done d s hws st hst fuel hfuel
+  rw [checkSchema_draft _ _ _ d fuel s st (fresh_of_metaState hst), Out.verdict_ok]
+  constructor
+  · intro h
+    exact ⟨fuel, fun m hm => (meta_verdict_from s hws fuel hst hdone m hm).1 h.1⟩
+  · rintro ⟨n, hn⟩
+    refine ⟨?_, hdone⟩
+    exact (meta_verdict_from s hws fuel hst hdone (max fuel n) (Nat.le_max_left _ _)).2
+      (hn _ (Nat.le_max_right _ _))
+
+/-- what check_schema accepts is shaped, without `hdone` -/
+theorem accepted_is_shaped_total (d : Draft) (s : Json) (hws : Spec.WF s = true)
+    (hrefs : Spec.refsAreStrings s = true) (fuel : Nat) (st : RState) (hst : metaState d = some st)
+    (hfuel : bound s ≤ fuel)
+    (hacc : checkSchema (metaEnv d) ⟨fun _ _ => none⟩ Globals.initial d.classDef fuel s = .ok) :
+    Spec.shapedR d s = true :=
+  accepted_is_shaped d s hws hrefs fuel st hst (metaschema_run_done d s hws st hst fuel hfuel) hacc
+
+/-- … and can be used to validate any instance without crashing, without `hdone` -/
+theorem accepted_never_crashes_total (d : Draft) (s : Json) (hws : Spec.WF s = true)
+    (hrefs : Spec.refsAreStrings s = true) (fuel : Nat) (st₀ : RState) (hst : metaState d = some st₀)
+    (hfuel : bound s ≤ fuel)
+    (hacc : checkSchema (metaEnv d) ⟨fun _ _ => none⟩ Globals.initial d.classDef fuel s = .ok)
+    (env : Env) (hre : Props.C03.RegexOk env) (hso : Spec.SetOrderOk env) (impl : FmtImpl)
+    (fc : Option FormatChecker) (n : Nat) (i : Json) (b : Option Nat) (st : RState) :
+    Props.C03.Benign d fc.isSome (eval env impl (d.cfg fc) n i s b st).stop
+    ∨ (Props.C03.evalG env impl d fc n i s b st).stop = .raised Props.C03.unshapedTarget :=
+  accepted_never_crashes d s hws hrefs fuel st₀ hst (metaschema_run_done d s hws st₀ hst fuel hfuel) hacc
+    env hre hso impl fc n i b st
+
+/-! Non-vacuity: a nested candidate (a property whose items are constrained, a property that refers
+back to the root, a `dependencies` array), run by the kernel with exactly `bound` fuel. -/
+
+/-- `{"type": "object", "properties": {"tags": {"type": "array", "items": {"type": "string",
+    "minLength": 1}}, "next": {"$ref": "#"}}, "dependencies": {"next": ["tags"]},
+    "additionalProperties": false}` -/
+def nested : Json :=
+  .obj [(k!"type", .str (k!"object")),
+        (k!"properties", .obj [
+          (k!"tags", .obj [(k!"type", .str (k!"array")),
+                           (k!"items", .obj [(k!"type", .str (k!"string")), (k!"minLength", .num (.int 1))])]),
+          (k!"next", .obj [(k!"$ref", .str (k!"#"))])]),
+        (k!"dependencies", .obj [(k!"next", .arr [.str (k!"tags")])]),
+        (k!"additionalProperties", .bool false)]
+
+/-- the metaschema run of draft `d` on `nested`, with exactly `bound nested` fuel, ends normally
+    without an error -/
+def nestedRun (d : Draft) : Bool :=
+  match metaState d with
+  | some st =>
+    (eval (metaEnv d) ⟨fun _ _ => none⟩ (d.cfg none) (bound nested) nested d.metaSchema none st).stop.isDone
+    && (eval (metaEnv d) ⟨fun _ _ => none⟩ (d.cfg none) (bound nested) nested d.metaSchema none st).errs.isEmpty
+  | none => false
+
+theorem nestedRun_ok : bound nested = 135 ∧ nestedRun .d3 = true ∧ nestedRun .d4 = true ∧ nestedRun .d7 = true := by
+  decide +kernel
+
+/-- the theorems instantiated: check_schema of draft 7 accepts `nested` exactly when the metaschema
+    allows it; and it does (kernel evaluation) -/
+example :
+    (checkSchema (metaEnv .d7) ⟨fun _ _ => none⟩ Globals.initial Draft.d7.classDef (bound nested) nested = .ok
+      ↔ MetaAllows .d7 nested)
+    ∧ checkSchema (metaEnv .d7) ⟨fun _ _ => none⟩ Globals.initial Draft.d7.classDef (bound nested) nested = .ok := by
+  obtain ⟨st, hst, _⟩ := meta_refs_designate_schemas .d7
+  have hws : Spec.WF nested = true := by decide +kernel
+  refine ⟨checkSchema_accepts_iff_allowed .d7 nested hws _ st hst (Nat.le_refl _), ?_⟩
+  have h := nestedRun_ok.2.2.2
+  unfold nestedRun at h
+  rw [hst] at h
+  dsimp only at h
+  rw [Bool.and_eq_true] at h
+  rw [checkSchema_draft _ _ _ .d7 _ nested st (fresh_of_metaState hst), Out.verdict_ok]
+  exact ⟨List.isEmpty_iff.1 h.2, Props.C02.Recursive.done_of_isDone h.1⟩
 
 end JS.Props.C11
